@@ -1,0 +1,20 @@
+//go:build verif
+
+package docker
+
+import (
+	dockercontainer "github.com/docker/docker/api/types/container"
+	dockerapi "github.com/docker/docker/client"
+
+	coretypes "github.com/projecteru2/core/types"
+)
+
+// VerifMakeResourceSetting exports makeResourceSetting for the verification harness.
+func VerifMakeResourceSetting(cpu float64, memory int64, cpuMap map[string]int64, numaNode string, iopsOptions map[string]string, remap bool) dockercontainer.Resources {
+	return makeResourceSetting(cpu, memory, cpuMap, numaNode, iopsOptions, remap)
+}
+
+// VerifNewEngine builds an Engine around a given docker API client (a mock in the harness).
+func VerifNewEngine(client dockerapi.APIClient, config coretypes.Config) *Engine {
+	return &Engine{client: client, config: config}
+}
